@@ -1,7 +1,7 @@
 // h_integer.cpp — transcript of integer<nbits, bt, IntegerNumber>.
 // usage: h_integer exh <nbits> <bt> 0 <opset>        every operand (pair), every operator, every shift count
 //        h_integer rnd <nbits> <bt> <count> <opset>  structured random operands (seed: VERIF_SEED)
-// bt = u8|u16|u32|u64;  opset = all|arith|div|shift|logic|conv|nomul
+// bt = u8|u16|u32|u64;  opset = all|arith|div|shift|logic|conv|nomul (= all but mul)
 // compile with -DUV_BT=8|16|32|64 to build the instantiations of one block type only (parallel compilation).
 #include "ops_integer.hpp"
 
@@ -70,6 +70,15 @@ struct Run {
 		for (uint64_t i = 0; i < count; ++i) {
 			Big a = uv::operand(g, nbits), b = uv::partner(g, a, nbits);
 			binary(a, b);
+			if ((i & 31) == 0) {
+				// divisor -1 (the branch of the native fast path that negates instead of dividing), on the most negative value and around it
+				Big m1 = Big::ones(nbits), mn = Big::pow2(nbits - 1);
+				binary(mn.plus(int64_t(g.below(3)), nbits), m1);
+				binary(a, m1);
+				// carries that run across every limb boundary: 2^k - 1 plus / minus small values, -1 + 1
+				binary(m1, Big(1 + g.below(3)));
+				binary(Big::ones(unsigned(g.below(nbits + 1))), Big(1));
+			}
 			if ((i & 3) == 0) {
 				unary(a);
 				int k;
@@ -111,12 +120,13 @@ int main(int argc, char** argv) {
 	uint64_t count = argc > 4 ? std::strtoull(argv[4], nullptr, 10) : 1000;
 	std::string ops = argc > 5 ? argv[5] : "all";
 	bool all = ops == "all";
-	g_arith = all || ops == "arith" || ops == "nomul";
+	bool nomul = ops == "nomul";
+	g_arith = all || ops == "arith" || nomul;
 	g_mul = all || ops == "arith";
-	g_div = all || ops == "div";
-	g_shift = all || ops == "shift" || ops == "nomul";
-	g_logic = all || ops == "logic" || ops == "nomul";
-	g_conv = all || ops == "conv";
+	g_div = all || ops == "div" || nomul;
+	g_shift = all || ops == "shift" || nomul;
+	g_logic = all || ops == "logic" || nomul;
+	g_conv = all || ops == "conv" || nomul;
 #define X(N,BT) if (n == N && bts == BtName<BT>::s) { uv::silence_stderr(); if (mode == "exh") Run<N,BT>::exhaustive(); else Run<N,BT>::random(count); return 0; }
 #if UV_BT == 0 || UV_BT == 8
 	SMALL(X, uint8_t) LARGE(X, uint8_t) HUGE_(X, uint8_t)
@@ -129,8 +139,10 @@ int main(int argc, char** argv) {
 #endif
 #if UV_BT == 0 || UV_BT == 64
 	SMALL(X, uint64_t) LARGE(X, uint64_t)
-	// multi-block uint64_t: the library's carry chain drops the carry (integer_impl.hpp:291); opset nomul only
-	if (n == 128 && bts == "u64") { uv::silence_stderr(); g_mul = g_div = g_conv = false; if (mode == "exh") return 2; Run<128, uint64_t>::random(count); return 0; }
+	// multi-block uint64_t: everything except operator*= (64x64-bit partial products in a 64-bit accumulator and `segment >>= 64`:
+	// known finding integer.u64.multiblock_mul, undefined behaviour, never called here)
+	g_mul = false;
+	HUGE_(X, uint64_t)
 #endif
 #undef X
 	std::fprintf(stderr, "unsupported configuration %u %s\n", n, bts.c_str());
